@@ -27,3 +27,13 @@ pub fn vx_first(v: &Vec<Span>) -> (r: Option<&Span>)
 pub fn vx_last(v: &Vec<Span>) -> (r: Option<&Span>)
     ensures r is Some == (v@.len() > 0), r is Some ==> *r->Some_0 == v@[v@.len() - 1]
 { unimplemented!() }
+// Parser::eoi: the report and the error are opaque; what matters is the span they are built from
+#[verifier::external_body]
+pub struct Error { _p: () }
+#[verifier::external_body]
+pub struct ReportError { _p: () }
+#[verifier::external_body]
+pub fn vx_eoi_report(span: &Span) -> ReportError { unimplemented!() }
+#[verifier::external_body]
+pub fn vx_syntax_error(k: ErrorKind) -> Error { unimplemented!() }
+pub enum ErrorKind { SyntaxError(Box<ReportError>) }
